@@ -168,7 +168,20 @@ type caseDesc struct {
 	Excl  []string `json:"excl,omitempty"`
 	Ign   int      `json:"ignore,omitempty"`
 	Note  string   `json:"note,omitempty"`
+	// what happened in the SAME process immediately before the operations of this case (C01 histories: failed encodes of
+	// unrelated values; encode / decode must be functions of their argument alone)
+	History []histStep `json:"history,omitempty"`
 	Ops   []opDesc `json:"ops"`
+}
+
+// one earlier step of a history: an operation on some other value whose outcome is not part of the case's claim
+type histStep struct {
+	Op      string  `json:"op"` // enc | dec
+	Type    string  `json:"type"`
+	Format  string  `json:"format"`
+	Value   *Val    `json:"value,omitempty"`
+	Data    string  `json:"data,omitempty"`
+	Outcome outcome `json:"outcome"`
 }
 type cb struct {
 	ty     string // Coq type term
